@@ -852,7 +852,7 @@ def op_set_element_bad(h, e):
 def op_annotation(h, e):
     ctx, rng, mm = h.ctx, h.rng, e.mm
     n = mm.n
-    what = str(rng.choice(["set_new", "set_same", "set_promote", "attr", "add", "del", "inplace", "wrong_len"]))
+    what = str(rng.choice(["set_new", "set_same", "set_promote", "attr", "add", "add_again", "del", "inplace", "wrong_len"]))
     ctx.op("annot_" + what)
     free = [c for c in EXTRA if c not in mm._cats]
     have = [c for c in EXTRA if c in mm._cats]
@@ -889,6 +889,15 @@ def op_annotation(h, e):
         for a in mm.atoms:
             a[c] = zero
         mm._cats.append(c)
+    elif what == "add_again":
+        # add_annotation() on a category that already exists ("if not already existing"): the values stay as they are,
+        # for the same dtype and for one that can also represent them
+        c = str(rng.choice(["res_id", "chain_id", "hetero", "res_name"] + have))
+        cur = e.obj.get_annotation(c).dtype
+        wider = {"i": np.int64, "u": np.int64, "b": bool, "f": np.float64, "U": "U%d" % (cur.itemsize // 4 + int(rng.integers(0, 4)))}.get(cur.kind, cur)
+        dt = cur if rng.random() < 0.5 else wider
+        ctx.log("add_annotation again", c, str(dt))
+        e.obj.add_annotation(c, dt)
     elif what == "del" and have:
         c = have[0]
         ctx.log("del_annotation", c)
